@@ -46,7 +46,7 @@ def gen_grad(rng, pool, ch, want_first, block_len):
         return pool.trap(ch)
     delay = 0.0
     if rng.random() < (0.35 if first == 0 else 0.12):
-        delay = rng.choice([1e-4, 2e-4])
+        delay = rng.choice([1e-4, 2e-4, H.RASTER, 2 * H.RASTER])      # also delays of one or two raster steps
     aligned = rng.random() < (0.85 if last != 0 else 0.4)
     n = int(round((block_len - delay) / H.RASTER)) if aligned else rng.choice([20, 30, 50])
     if not aligned and rng.random() < 0.35:
@@ -348,10 +348,16 @@ def gen_history(rng, tier):
                 pl = [float(gl.data[ev[2 + c]][5]) if ev[2 + c] and gl.type[ev[2 + c]] == 'g' else 0.0 for c in range(3)]
             evs = gen_block(rng, pool, pl)
             kind = 'set'
-        else:
+        elif r < 0.93 or not [j for j in range(1, max(ids)) if j not in ids]:
             i = tw.on.next_free_block_ID + rng.choice([1, 2, 5])
             evs = gen_block(rng, pool, prev_last)
             kind = 'setgap'
+        else:
+            # an unused number BELOW the highest one: the block is new, so it is appended behind the last block in play
+            # order (numbering and play order now disagree), and it must continue from that last block
+            i = rng.choice([j for j in range(1, max(ids)) if j not in ids])
+            evs = gen_block(rng, pool, prev_last)
+            kind = 'setlow'
         if seen and rng.random() < 0.18:
             # the very events of an earlier call again (preferably ones that continue from where the sequence stands):
             # their library entries are found again, also when a flip has rewritten those entries in the meantime
